@@ -20,7 +20,7 @@ from .. import impl_integrator as I
 from ..core import Check, VERIF
 
 THEOREMS = {n: "Props.C07" for n in [
-    "C07_no_double_handout", "C07_rejects_foreign", "C07_no_internal_error",
+    "C07_no_double_handout", "C07_rejects_foreign", "C07_rejects_unmapped", "C07_no_internal_error",
     "C07_cover_is_partition", "C07_partition_partial", "C07_no_internal_error_refuted_unfixed"]}
 
 PREAMBLE_HEAD = """From Coq Require Import PrimFloat List. Import ListNotations.
